@@ -241,8 +241,16 @@ static int eintr(const char *what, int fd)
 	return 0;
 }
 
+/* simulated descriptors: return 1 and set *ret/errno if the call was served */
+int (*env_read_override)(int fd, void *buf, size_t n, ssize_t *ret);
+int (*env_write_override)(int fd, const void *buf, size_t n, ssize_t *ret);
+int (*env_shutdown_hook)(int fd, int how);
+
 ssize_t ivw_read(int fd, void *buf, size_t n)
 {
+	ssize_t r;
+	if (env_read_override && env_read_override(fd, buf, n, &r))
+		return r;
 	if (env_thr.point)
 		env_thr.point("read", fd);
 	if (eintr("read", fd))
@@ -252,6 +260,9 @@ ssize_t ivw_read(int fd, void *buf, size_t n)
 
 ssize_t ivw_write(int fd, const void *buf, size_t n)
 {
+	ssize_t r;
+	if (env_write_override && env_write_override(fd, buf, n, &r))
+		return r;
 	if (env_thr.point)
 		env_thr.point("write", fd);
 	if (eintr("write", fd))
@@ -297,6 +308,8 @@ int ivw_setsockopt(int fd, int level, int name, const void *val, socklen_t len)
 
 int ivw_shutdown(int fd, int how)
 {
+	if (env_shutdown_hook && env_shutdown_hook(fd, how))
+		return 0;
 	return shutdown(fd, how);
 }
 
